@@ -56,6 +56,7 @@ type Engine struct {
 	TimeoutMs   int
 	Prelude     string
 	FuncsEntered map[string]bool
+	SkeletonRoot string
 	SamplePath  func(decisions []int) bool // sample completed paths for native validation replays
 	SubmatchHook func(r *Run, re *regexp.Regexp, s *Term) (value, bool)
 }
@@ -613,7 +614,8 @@ func visitInstr(fr *frame, instr ssa.Instruction) continuation {
 			}
 			fr.env[instr] = &(*p).(structure)[instr.Field]
 		case nativeV:
-			fr.env[instr] = r.nativeFieldAddr(fr, instr, p, instr.Field)
+			fname := mustDeref(instr.X.Type()).Underlying().(*types.Struct).Field(instr.Field).Name()
+			fr.env[instr] = r.nativeFieldAddr(fr, instr, p, fname)
 		default:
 			panic(unsupported(fmt.Sprintf("FieldAddr on %T", x)))
 		}
@@ -624,7 +626,12 @@ func visitInstr(fr *frame, instr ssa.Instruction) continuation {
 		case structure:
 			fr.env[instr] = s[instr.Field]
 		case nativeV:
-			fr.env[instr] = r.fromReflect(s.rv.Field(instr.Field))
+			fname := instr.X.Type().Underlying().(*types.Struct).Field(instr.Field).Name()
+			fv := s.rv.FieldByName(fname)
+			if !fv.IsValid() {
+				panic(unsupported("native struct " + s.rv.Type().String() + " has no field " + fname))
+			}
+			fr.env[instr] = r.fromReflect(fv)
 		default:
 			panic(unsupported(fmt.Sprintf("Field on %T", x)))
 		}
